@@ -162,6 +162,13 @@ func tooDeepOrBig(x interface{}, levels int, budget *int) bool {
 				return true
 			}
 		}
+	case [][2]interface{}:
+		// What a Map exports to: a list of (key, value) pairs.
+		for _, kv := range vv {
+			if tooDeepOrBig(kv[0], levels-2, budget) || tooDeepOrBig(kv[1], levels-2, budget) {
+				return true
+			}
+		}
 	}
 	return false
 }
